@@ -29,11 +29,21 @@ func c17Unix(v avfs.VFS, p string) string {
 // classes and symbolic link targets. Modes and owners are documented as OS-specific and left out.
 func c17Lines(v avfs.VFS, s *fsx.Snapshot) []string {
 	var out []string
+	// a hard-link class is named after the smallest of its paths in the *portable* spelling (the native orders of
+	// "/w/a/c" < "/w/aB" and "\\w\\aB" < "\\w\\a\\c" differ: '/' sorts before the letters, '\\' after the capitals)
+	least := map[string]string{}
+	for _, r := range s.Recs {
+		if r.Type == "f" {
+			if p := c17Unix(v, r.Path); least[r.Class] == "" || p < least[r.Class] {
+				least[r.Class] = p
+			}
+		}
+	}
 	for _, r := range s.Recs {
 		l := c17Unix(v, r.Path) + " " + r.Type
 		switch r.Type {
 		case "f":
-			l += fmt.Sprintf(" sz%d %s n%d =%s", r.Size, r.Sum, r.Nlink, c17Unix(v, r.Class))
+			l += fmt.Sprintf(" sz%d %s n%d =%s", r.Size, r.Sum, r.Nlink, least[r.Class])
 		case "l":
 			l += " ->" + c17Unix(v, r.Target)
 		}
@@ -221,6 +231,10 @@ func c17Pair(c *rt.Ctx, fsType string, h int) {
 		return // reported by c17Construction
 	}
 	cfg := gen.Cfg{Root: "/w", Names: []string{"a", "ab", "c"}, Depth: 3, NoChange: true, Links: true, Chdir: true, Handles: true}
+	if h%3 == 0 {
+		// names that differ by letter case only: the emulated tree is case-sensitive whatever the OS type
+		cfg.Names = []string{"a", "A", "aB", "c"}
+	}
 	if fsType == "MemFS" {
 		cfg.Symlinks = true
 	}
